@@ -1317,6 +1317,14 @@ class Executor:
         c = self.book.lookup(cls, "__init__")
         obj = Obj(cls, {})
         if c is not None:
+            if hasattr(c, "init_fields"):
+                # constructor contract that binds fields directly to the (boxed) arguments
+                params = [p for p in c.params if p != "self"]
+                cenv = dict(zip(params, args))
+                cenv.update(kwargs)
+                obj.fields.update(c.init_fields(self.S, cenv))
+                self.assumed.append("constructor contract of %s assumed at L%d" % (cls, node.lineno))
+                return obj
             self.apply_contract(c, obj, args, kwargs, node)
             return obj
         fn = self.book.inline_source(self.contract, cls, "__init__")
